@@ -14,6 +14,9 @@ import time
 
 VERIF = os.path.dirname(os.path.dirname(os.path.abspath(__file__)))
 REPO = os.environ.get('SKV_REPO', '/repo')
+CHILD = os.environ.get('SKV_CHILD')          # set in the second-pass child (python -O)
+REDUCED = bool(os.environ.get('SKV_REDUCED'))
+OPT_PIDS = ('C01', 'C02', 'C03', 'C04', 'C05', 'C06', 'C07', 'C11', 'C16', 'C17')
 COQ = os.path.join(VERIF, 'coq')
 OCAML = os.path.join(VERIF, 'ocaml')
 EVID = os.path.join(VERIF, 'evidence')
@@ -354,6 +357,15 @@ class Check:
         self.corr_disagreements.append((what, replay))
 
     def build(self, extract=False):
+        if CHILD:
+            # second pass in another interpreter mode: implementation against the independent oracle only (the theorems
+            # and the model correspondence belong to the parent run)
+            class NoBuild:
+                ok = False
+                failed = None
+                error = None
+            self.build_result = None
+            return NoBuild()
         r = build(self.prop_file, extract=extract)
         self.build_result = r
         if not r.ok:
@@ -366,6 +378,27 @@ class Check:
         r = self.build_result
         lines = []
         exit_code = 0
+        child = None
+        if not CHILD and self.pid in OPT_PIDS and self.tier in ('quick', 'thorough'):
+            # the same search once more, reduced, in an interpreter started with -O (assert statements are stripped: a
+            # consensus or codec check must not live in an assert)
+            import subprocess
+            env = dict(os.environ, SKV_CHILD='optimized', SKV_REDUCED='1', VERIF_SEED=str(self.seed))
+            try:
+                cp = subprocess.run([sys.executable, '-O', os.path.join(VERIF, 'harness', 'main.py'), self.pid, '--tier', 'quick'],
+                                    env=env, stdout=subprocess.PIPE, stderr=subprocess.STDOUT, text=True, timeout=1800,
+                                    cwd=VERIF)
+                cl = [ln for ln in cp.stdout.splitlines() if ln.startswith('VIOLATION ')]
+                summ = [ln for ln in cp.stdout.splitlines() if ln.startswith(self.pid + ' ')]
+                child = {'interpreter': 'python -O', 'exit': cp.returncode, 'violations': len(cl),
+                         'summary': summ[-1] if summ else cp.stdout[-300:]}
+                for ln in cl:
+                    lines.append(ln)
+                    exit_code = 1
+                if cp.returncode not in (0, 1) or (cp.returncode == 1 and not cl):
+                    child['note'] = 'child run failed: ' + cp.stdout[-400:]
+            except Exception as e:       # the extra pass must never break the main run
+                child = {'interpreter': 'python -O', 'error': repr(e)}
         for sig, what in self.known_hit:
             lines.append('KNOWN-FINDING: property=%s %s' % (self.pid, what))
         if self.corr_disagreements and not self.violations:
@@ -373,6 +406,10 @@ class Check:
                 self.broken.append({'kind': 'correspondence', 'where': what, 'replay': replay})
         nviol = 0
         if self.violations:
+            if CHILD:
+                for i_ in range(len(self.violations)):
+                    sg_, wh_, rp_ = self.violations[i_]
+                    self.violations[i_] = (sg_, '[interpreter started with -O] ' + wh_, dict(rp_, interpreter='python -O') if isinstance(rp_, dict) else rp_)
             for sig, what, replay in self.violations[:5]:
                 h = hashlib.sha1(json.dumps(replay, sort_keys=True, default=str).encode()).hexdigest()[:12]
                 path = os.path.join(REPLAYS, '%s-%s.json' % (self.pid, h))
@@ -421,6 +458,8 @@ class Check:
                                 + self.trusted,
             })
         cov.update(self.extra)
+        if child is not None:
+            cov['optimized_interpreter_pass'] = child
         ev = {
             'property_id': self.pid, 'tier': self.tier, 'seed': self.seed, 'level': level,
             'coverage': cov, 'assumptions': self.assumptions, 'wall_s': round(time.time() - self.t0, 2),
@@ -428,7 +467,7 @@ class Check:
             'known_findings_hit': [w for _, w in self.known_hit],
             'no_longer_checks': self.broken,
         }
-        with open(os.path.join(EVID, '%s.json' % self.pid), 'w') as f:
+        with open(os.path.join(EVID, '%s%s.json' % (self.pid, '.child' if CHILD else '')), 'w') as f:
             json.dump(ev, f, indent=1, default=str)
         for ln in lines:
             print(ln)
